@@ -106,13 +106,19 @@ class LinearInterpolator(NNBase):
 
         # Check to see if there are any collinear points and replace them
         n0 = np.where(normal[:, -1, :] == 0)
-        predictions[n0, :] = self._tv[nloc[0, n0], :]
+        predictions[n0] = self._tv[nloc[n0[0], 0], n0[1]]
 
         # Finish computation for the good normals
         n = np.where(normal[:, -1, :] != 0)
         predictions[n] /= -normal[:, -1, :][n]
 
         # Rescale to original units
+        # A prediction point that coincides with a training point returns the training value: the
+        # hyperplane through affinely dependent neighbors is not unique and may be vertical.
+        hit = ndist[:, 0] == 0.0
+        if np.any(hit):
+            predictions[hit, :] = self._tv[nloc[hit, 0], :]
+
         predictions = (predictions * self._tvr) + self._tvm
 
         self._pt_cache = (normalized_pts, ndist, nloc)
